@@ -303,7 +303,7 @@ Definition trigger (is_low : bool) (t : task) (w : world) : res * world :=
 (* ------------------------------------------------------------------ *)
 (* epoll registration *)
 
-Definition EV_IN := 1.  Definition EV_OUT := 4.  Definition EV_ERR := 8.
+Definition EV_IN := 1.  Definition EV_PRI := 2.  Definition EV_OUT := 4.  Definition EV_ERR := 8.
 Definition EV_HUP := 16.  Definition EV_RDHUP := 8192.
 
 Definition epctl (op : string) (fd : Z) (rw : bool) (et : bool) (w : world) : res * world :=
@@ -324,6 +324,9 @@ Definition action_of (a : arg) : action :=
   end.
 
 Definition err_sym (is_nil : bool) : arg := ASym (if is_nil then "nil" else "err").
+
+(* iovMax of eventloop_unix.go (checked against the source by genloop) *)
+Definition iov_max : nat := 1024.
 
 (* the slice arithmetic of conn.writev after a partial writev(2) *)
 Fixpoint drop_sent (sent : Z) (segs : list (list Z)) : list (list Z) :=
@@ -436,7 +439,7 @@ with conn_writev_loop (fuel : nat) (cid : Z) (segs : list (list Z)) (n : Z) (w :
   | S f =>
     let c := wc w cid in
     let et := l_et (st w) in
-    let iov := firstn 1024 segs in
+    let iov := firstn iov_max segs in
     match sys_wr cid (c_fd c) (List.concat iov) true w with
     | (KErr e, w1) =>
         if is_eagain e then
@@ -843,13 +846,13 @@ Definition has (ev mask : Z) : bool := negb (Z.land ev mask =? 0).
 (* conn.processIO (Linux) *)
 Definition process_io (fuel : nat) (cid : Z) (ev : Z) (w : world) : res * world :=
   let c := wc w cid in
-  if has ev (EV_ERR + EV_HUP + EV_RDHUP) && negb (has ev (EV_IN + EV_OUT)) then
+  if has ev (EV_ERR + EV_HUP + EV_RDHUP) && negb (has ev (EV_IN + EV_PRI + EV_OUT)) then
     el_close fuel cid false (wsetc w cid (c_set_out c []))
   else
     let '(r1, w1) := if has ev (EV_OUT + EV_ERR + EV_HUP) then el_write fuel cid 0 w else (RNil, w) in
     match r1 with
     | RNil =>
-      let '(r2, w2) := if has ev (EV_IN + EV_ERR + EV_HUP) then el_read fuel cid 0 w1 else (RNil, w1) in
+      let '(r2, w2) := if has ev (EV_IN + EV_PRI + EV_ERR + EV_HUP) then el_read fuel cid 0 w1 else (RNil, w1) in
       match r2 with
       | RNil =>
         if has ev EV_RDHUP && c_opened (wc w2 cid) then
